@@ -7,6 +7,8 @@ import (
 
 var checks = map[string]func(*Report){
 	"C12": runC12,
+	"C19": runC19,
+	"C13": runC13,
 }
 
 func main() {
